@@ -667,6 +667,8 @@ impl Gensym {
     pub fn gensym(&self, prefix: &str) -> String {
         let current = self.counter.get();
         self.counter.set(current + 1);
+        #[cfg(goml_verif)]
+        crate::verif_hooks::emit(|| serde_json::json!({"ev": "gensym", "prefix": prefix, "n": current}));
         format!("{}{}", prefix, current)
     }
 
